@@ -463,7 +463,7 @@ pub fn run(tier: Tier, seed: u64) -> i32 {
   }
   // lockfile-seeded redirects: agreeing, contradicting, dangling, cyclic
   let mut rng = Rng::new(seed);
-  let n_lock = tier.pick(4800, 48000);
+  let n_lock = tier.pick(4800, 960000);
   for _ in 0..n_lock {
     let hops = rng.range(0, 13);
     let mut lock = vec![];
